@@ -873,7 +873,7 @@ func (g *Gen) discharge(fcs []*FnCtx, filter func(*Oblig) bool) {
 					timedOut = true
 				}
 			}
-			if timedOut && !noRetryFlag {
+			if timedOut && !noRetryFlag && !noRetryNames[o.Name] {
 				again = append(again, o)
 				byO[o] = fc
 			}
